@@ -326,7 +326,7 @@ def run(ctx):
             run_exh(ctx, 4, idx, s4[idx], False)
     ctx.note('exhaustive_n3_structures', len(s3))
     ctx.deadline = ctx.t0 + total
-    for i in ctx.indices(1500 if ctx.tier == 'quick' else 80000, 'random'):
+    for i in ctx.indices(6000 if ctx.tier == 'quick' else 80000, 'random'):
         run_rand(ctx, i)
 
 
